@@ -339,11 +339,30 @@ def check_definite_assignment(run, repo, eff):
             n += 1
             maybe = []
 
-            def use(e, d):
-                for x in ast.walk(e):
-                    if isinstance(x, ast.Name) and isinstance(x.ctx, ast.Load) and x.id in assigned_anywhere \
-                            and x.id not in d and x.id not in params:
-                        maybe.append((x.id, x))
+            def use(e, d, bound=frozenset()):
+                # comprehension / lambda variables live in their own scope: they are never unbound function locals
+                if isinstance(e, (ast.ListComp, ast.SetComp, ast.GeneratorExp, ast.DictComp)):
+                    inner = set(bound)
+                    for g in e.generators:
+                        use(g.iter, d, frozenset(inner))
+                        inner |= {x.id for x in ast.walk(g.target) if isinstance(x, ast.Name)}
+                        for c in g.ifs:
+                            use(c, d, frozenset(inner))
+                    for part in ([e.key, e.value] if isinstance(e, ast.DictComp) else [e.elt]):
+                        use(part, d, frozenset(inner))
+                    return
+                if isinstance(e, ast.Lambda):
+                    a = e.args
+                    names = {x.arg for x in a.args + a.kwonlyargs + a.posonlyargs} | {x.arg for x in (a.vararg, a.kwarg) if x}
+                    use(e.body, d, frozenset(set(bound) | names))
+                    return
+                if isinstance(e, ast.Name):
+                    if isinstance(e.ctx, ast.Load) and e.id in assigned_anywhere and e.id not in d and e.id not in params \
+                            and e.id not in bound:
+                        maybe.append((e.id, e))
+                    return
+                for c in ast.iter_child_nodes(e):
+                    use(c, d, bound)
 
             def block(stmts, d):
                 """returns the definitely-assigned set at fall-through, or None if the block never falls through"""
